@@ -109,6 +109,19 @@ def classify(parsed, top=True, depth=0):
     return kind
 
 
+def qdepth(parsed):
+    """nesting depth of quantifiers"""
+    best = 0
+    for op, val in parsed:
+        if op in (sc.MAX_REPEAT, sc.MIN_REPEAT):
+            best = max(best, 1 + qdepth(val[2]))
+        elif op == sc.SUBPATTERN:
+            best = max(best, qdepth(val[3]))
+        elif op == sc.BRANCH:
+            best = max([best] + [qdepth(alt) for alt in val[1]])
+    return best
+
+
 def _finish(violation=None):
     if OUT[0]:
         with open(OUT[0], "w", encoding="utf-8") as fh:
@@ -154,7 +167,16 @@ def TestOneInput(data):
         _random.setstate(state)
     if len(s) > 20000:
         return
-    if re.fullmatch(pattern, s) is None:
+    if qdepth(parsed) >= 2 and len(s) > 12:
+        # a match inside the C engine cannot be interrupted: nested quantifiers are matched in a child that can be killed
+        from . import safematch
+        ok = safematch.fullmatch(pattern, s, 3.0)
+        if ok is None:
+            STATS["inconclusive"] = STATS.get("inconclusive", 0) + 1
+            return
+    else:
+        ok = re.fullmatch(pattern, s) is not None
+    if not ok:
         _finish({"key": "nonmatch" if kind == "supported" else "unsupported-nonmatch", "pattern": pattern,
                  "max_repeat": max_repeat, "seed": seed,
                  "detail": f"generate({pattern!r}, max_repeat={max_repeat}) = {s!r} does not fully match"})
